@@ -321,7 +321,9 @@ fn prior_life<K: Kit>(rig: &mut Rig<K>, sc: &Scenario, seq: &[u8], same_space: b
     // start and goal exchanged - or, for every other sample sequence of the other-space life, the SAME start
     // and goal (a planner that recognises "the same query" by its start and its checker must still notice
     // that the space is another one)
-    let same_query = !same_space && seq.iter().map(|x| *x as usize).sum::<usize>() % 2 == 0;
+    // (which sequences: a bit of the sequence hash that is independent of the two bits choosing the variant)
+    let fold = seq.iter().fold(0usize, |a, l| a.wrapping_mul(31).wrapping_add(*l as usize + 1));
+    let same_query = !same_space && (fold / 4) % 2 == 0;
     let (p_start, goal) = if same_query {
         (rig.start.clone(), std::sync::Arc::new(HGoal::<K>::new(sc.goal_balls.iter().map(|(c, r)| (K::from_v(c), *r)).collect(), rig.goal.samples.clone(), dist)))
     } else {
@@ -329,7 +331,7 @@ fn prior_life<K: Kit>(rig: &mut Rig<K>, sc: &Scenario, seq: &[u8], same_space: b
     };
     // (other-checker life, every other sequence: the very same problem-definition Arc - a planner that
     // recognises "the same problem" must still notice that the checker is another one)
-    let same_pd = same_space && seq.iter().map(|x| *x as usize).sum::<usize>() % 2 == 0;
+    let same_pd = same_space && (fold / 4) % 2 == 0;
     let pd = if same_pd { rig.pd.clone() } else { std::sync::Arc::new(crate::drv::Pd::<K> { space: space.clone(), start_states: vec![p_start], goal }) };
     let n = seq.len().max(1);
     if same_space {
